@@ -17,6 +17,9 @@ def frame(seed, n=24):
     d["o"] = pd.Categorical(_cover(rng, ["low", "mid", "high"], n), categories=["low", "mid", "high"], ordered=True)
     d["trials"] = rng.integers(5, 12, size=n)
     d["k"] = (d["trials"] * rng.uniform(0, 1, size=n)).astype(int)
+    d["k8"] = d["k"].astype(np.int8)                                  # successes stored in a narrow integer type / as booleans
+    d["kb"] = d["k"] > 3
+    d["yn"] = _cover(rng, [2, 9, 10, 33, 100, -1, -10], n)            # numeric levels: sorted by value, not by their text
     return d
 
 
@@ -39,11 +42,19 @@ def expected_response(form, d):
         return "proportion", np.column_stack([d["k"].values, d["trials"].values]).astype(float), None
     if form == "prop(k, 12)":
         return "proportion", np.column_stack([d["k"].values, np.full(len(d), 12)]).astype(float), None
+    if form in ("prop(k8, 200)", "prop(k8, 70000)", "prop(kb, 5)", "p(k8, trials)"):
+        succ, tr = form[form.index("(") + 1:-1].split(", ")
+        trv = d["trials"].values if tr == "trials" else np.full(len(d), int(tr))
+        return "proportion", np.column_stack([d[succ].values.astype(float), trv]).astype(float), None
+    if form in ("C(yn)", "T(yn)", "S(yn)"):
+        levels = sorted(set(d["yn"].values))
+        return "categoric", np.column_stack([(d["yn"].values == l).astype(float) for l in levels]), levels
     raise KeyError(form)
 
 
 FORMS = ["y", "np.log(trials)", "s", "sp", "c", "o", "s[a]", "s['b']", "sp['two words']", "c[q]", "o[high]", "o['mid']", "o[low]",
-         "s[zzz]", "prop(k, trials)", "p(k, trials)", "proportion(k, trials)", "prop(k, 12)"]
+         "s[zzz]", "prop(k, trials)", "p(k, trials)", "proportion(k, trials)", "prop(k, 12)",
+         "prop(k8, 200)", "prop(k8, 70000)", "prop(kb, 5)", "p(k8, trials)", "C(yn)", "T(yn)"]
 
 
 def PROOFS():
@@ -87,7 +98,7 @@ def run(report, findings):
                     err = f"response kind {dm.response.kind!r}, expected {kind!r}"
                 elif R.shape != want.shape or not np.allclose(R, want):
                     err = f"response values differ from the specification (shape {R.shape} vs {want.shape})"
-                elif levels is not None and list(dm.response.levels) != levels:
+                elif levels is not None and [str(l) for l in dm.response.levels] != [str(l) for l in levels]:
                     err = f"response levels {dm.response.levels} != {levels}"
                 # predictors do not depend on the response
                 for part in ("common", "group"):
@@ -120,7 +131,7 @@ def run(report, findings):
                     err = f"response kind {dm.response.kind!r}, expected {kind!r}"
                 elif R.shape != want.shape or not np.allclose(R, want):
                     err = f"response values differ from the specification (shape {R.shape} vs {want.shape})"
-                elif levels is not None and list(dm.response.levels) != levels:
+                elif levels is not None and [str(l) for l in dm.response.levels] != [str(l) for l in levels]:
                     err = f"response levels {dm.response.levels} != {levels}"
                 res.append((f"{f} on the {tagf}", err or "ok"))
         for f in ("y + x ~ g2", "y:x ~ g2", "y*x ~ 1", "(y|g2) ~ x", "1 ~ x"):
